@@ -464,3 +464,70 @@ func cmpsNoImport(b *ssa.BasicBlock) []Cmp {
 
 // ExpandFact returns f together with what it implies through boolean / nil-valued phis.
 func ExpandFact(f Fact) []Fact { return append([]Fact{f}, expandPhiFact(f, 0)...) }
+
+// EvalBoolUnder evaluates a boolean SSA value of one function under assumptions about other boolean values (env), looking
+// through negation, comparisons with boolean constants and the phis that short-circuit operators compile to: an incoming
+// edge of such a phi counts only if the branch that leads to it is consistent with the assumptions. known=false when the
+// assumptions do not determine the value.
+func EvalBoolUnder(v ssa.Value, env map[ssa.Value]bool) (val, known bool) {
+	return evalBoolUnder(v, env, 0)
+}
+
+func evalBoolUnder(v ssa.Value, env map[ssa.Value]bool, depth int) (bool, bool) {
+	if depth > 8 || v == nil {
+		return false, false
+	}
+	if b, ok := env[v]; ok {
+		return b, true
+	}
+	switch x := v.(type) {
+	case *ssa.Const:
+		if x.Value != nil && x.Value.Kind() == constant.Bool {
+			return constant.BoolVal(x.Value), true
+		}
+	case *ssa.UnOp:
+		if x.Op == token.NOT {
+			r, k := evalBoolUnder(x.X, env, depth+1)
+			return !r, k
+		}
+	case *ssa.ChangeType:
+		return evalBoolUnder(x.X, env, depth+1)
+	case *ssa.BinOp:
+		if x.Op == token.EQL || x.Op == token.NEQ {
+			a, ka := evalBoolUnder(x.X, env, depth+1)
+			b, kb := evalBoolUnder(x.Y, env, depth+1)
+			if ka && kb {
+				return (a == b) == (x.Op == token.EQL), true
+			}
+		}
+	case *ssa.Phi:
+		var res, have bool
+		for i, e := range x.Edges {
+			pred := x.Block().Preds[i]
+			// is the edge pred -> phi block consistent with env?
+			if len(pred.Succs) == 2 && pred.Succs[0] != pred.Succs[1] {
+				if ifi, ok := pred.Instrs[len(pred.Instrs)-1].(*ssa.If); ok {
+					if c, k := evalBoolUnder(ifi.Cond, env, depth+1); k {
+						taken := pred.Succs[1]
+						if c {
+							taken = pred.Succs[0]
+						}
+						if taken != x.Block() {
+							continue // infeasible under the assumptions
+						}
+					}
+				}
+			}
+			r, k := evalBoolUnder(e, env, depth+1)
+			if !k {
+				return false, false
+			}
+			if have && r != res {
+				return false, false
+			}
+			res, have = r, true
+		}
+		return res, have
+	}
+	return false, false
+}
